@@ -143,7 +143,10 @@ theorem current_never_shrinks (as : List Act) (s : St) (h : run current init as 
   intro s a s' ⟨hl, hu⟩ hs
   cases a with
   | call id k =>
-    simp only [step] at hs; split at hs <;> simp at hs; subst hs; exact ⟨hl, hu⟩
+    simp only [step] at hs
+    by_cases hg : (if current.uniqueIds then s.next < id else id = ticket s k + 1)
+    · rw [if_pos hg] at hs; simp at hs; subst hs; exact ⟨hl, hu⟩
+    · rw [if_neg hg] at hs; simp at hs
   | getQueue id k =>
     simp only [step] at hs
     split at hs
